@@ -1448,6 +1448,26 @@ def check_bigint_truncation(ctx, P, rule):
     for mod in ('term', 'borrowed'):
         fn = 'erltf::%s::bigint_to_u64' % mod
         if P.B(fn) is None:
+            # the 8-digit reader may have another name and guard itself: a function of the module that takes a BigInt and answers Option<u64>,
+            # reading the digits only where their count is known to be at most 8
+            for q, b_ in sorted(P.F.bodies.items()):
+                if not (q.startswith('erltf::%s::' % mod) and b_['kind'] in ('Fn', 'AssocFn')
+                        and any('BigInt' in (l_.get('ty') or '') for l_ in b_['locals'][1:b_.get('argc', 0) + 1])):
+                    continue
+                QB = P.B(q)
+                RQ = Ranges(QB)
+                # where digits are folded into a 64-bit word: `byte << (8 * i)` (the reader may have been spliced into its callers)
+                reads = sorted({bb for bb, j, st in QB.stmts() if st['k'] == '=' and st['rv']['k'] == 'bin' and st['rv']['op'].startswith('Shl') and st['rv'].get('ty') == 'u64'})
+                if not reads:
+                    continue
+                n += 1
+                good = all(any(isinstance(k, tuple) and k and k[0] == 'len' and v[1] <= 8 and 'digits' in str(k) for k, v in RQ.facts_at(bb).items()) for bb in reads)
+                inst = '%s:self-guarded' % q
+                if good:
+                    ctx.ok(rule, inst, 'the reader itself answers None for more than 8 digits: every digit access lies behind len <= 8', ctx.where(QB, reads[0]))
+                else:
+                    ctx.bad(rule, inst, '%s folds the digits of a big integer into a u64 without establishing that there are at most 8 of them' % q.rsplit('::', 1)[1], ctx.where(QB, reads[0]),
+                            key='CAST:%s:digits-unguarded' % q)
             continue
         seen = {}
         for c, bb, t in P.callers_of(lambda nm, fn=fn: nm == fn):
